@@ -88,7 +88,7 @@ func c05Check(c c05Case) *Violation {
 	bl := byLabel(rev.Features())
 	for _, f := range c.Feats {
 		gg := bl[f.label()]
-		if len(gg) != 1 {
+		if len(gg) != multOf(c.Feats, f) {
 			return viol("presence", "Reverse: feature %s present %d times", f.label(), len(gg))
 		}
 		exp := reverseLoc(f.Loc, L)
@@ -128,7 +128,7 @@ func c05Check(c c05Case) *Violation {
 	bc := byLabel(comp.Features())
 	for _, f := range c.Feats {
 		gg := bc[f.label()]
-		if len(gg) != 1 {
+		if len(gg) != multOf(c.Feats, f) {
 			return viol("presence", "Complement: feature %s present %d times", f.label(), len(gg))
 		}
 		exp := lco(f.Loc)
@@ -165,7 +165,7 @@ func c05Check(c c05Case) *Violation {
 	brc := byLabel(rc.Features())
 	for _, f := range c.Feats {
 		gg := brc[f.label()]
-		if len(gg) != 1 {
+		if len(gg) != multOf(c.Feats, f) {
 			return viol("presence", "Reverse(Complement): feature %s present %d times", f.label(), len(gg))
 		}
 		var x, y []byte
@@ -311,7 +311,7 @@ func c05Gen(t *rapid.T) c05Case {
 	if genLarge {
 		cfg.MaxSpan = 0
 	}
-	c.Feats = genFeats(t, cfg, drawCount(t, 1, 4, 9, "nfeat"), "f", true)
+	c.Feats = addTwins(t, genFeats(t, cfg, drawCount(t, 1, 4, 9, "nfeat"), "f", true), "f")
 	// some features as raw literals of a given arity (every arity 1..6 of non-reduced parts)
 	if rapid.Bool().Draw(t, "addraw") {
 		ar := rapid.IntRange(1, 6).Draw(t, "arity")
@@ -337,6 +337,10 @@ func TestC05(t *testing.T) {
 		return
 	}
 	rapidLargePart(t, c05Prop, st, pick(1000, 15000), c05Gen)
+	if t.Failed() {
+		return
+	}
+	rapidTwinsPart(t, c05Prop, st, pick(3000, 30000), c05Gen)
 	if t.Failed() {
 		return
 	}
